@@ -84,6 +84,7 @@ def handle (line : String) : String :=
   | "Z06" :: _ => "M holds ;; S holds"
   | "Z09" :: _ => "M holds ;; S holds"
   | "K20" :: rest => Lace.Driver.Edit.handleK20 rest
+  | "U20" :: rest => Lace.Driver.Edit.handleU20 rest
   | "L14" :: rest => handleL14 rest
   | "R14" :: rest => handleR14 rest
   | "A01" :: rest => handleA01 rest
